@@ -221,21 +221,16 @@ func enumerate(quick bool, f func(p *program) bool) {
 		return c
 	}
 
-	// family "chain": source, op(source), op(op(source))
+	// family "chain": source, op(source); op(op(source)) comes last so that
+	// the first witness of a defect is a small program
 	for _, s := range sources() {
 		cs := ctxsOf(s)
 		if !f(&program{"chain0", s.node, cs}) {
 			return
 		}
 		for _, o1 := range ops {
-			n1 := o1.build(s.node)
-			if !f(&program{"chain1", n1, cs}) {
+			if !f(&program{"chain1", o1.build(s.node), cs}) {
 				return
-			}
-			for _, o2 := range ops {
-				if !f(&program{"chain2", o2.build(n1), cs}) {
-					return
-				}
 			}
 		}
 	}
@@ -372,6 +367,19 @@ func enumerate(quick bool, f func(p *program) bool) {
 			n := call("@filter", s.node, call("@in", grp(0), a))
 			if !f(&program{"in", n, ctxsOf(s)}) {
 				return
+			}
+		}
+	}
+
+	// family "chain", two stacked operations
+	for _, s := range sources() {
+		cs := ctxsOf(s)
+		for _, o1 := range ops {
+			n1 := o1.build(s.node)
+			for _, o2 := range ops {
+				if !f(&program{"chain2", o2.build(n1), cs}) {
+					return
+				}
 			}
 		}
 	}
